@@ -141,9 +141,18 @@ def run_job(j, prop_dir, use_cache=True, want_functions=False):
     if err: out['error'] = err; out['wall_s'] = time.time() - t0; return out
     out['info'] = info
     if want_functions: out['gch_functions'] = gch_functions(j, wd)
-    cmd = cbmc_cmd(j, c)
-    key = file_sha([c, RT_C, os.path.join(RT_DIR, 'vf_rt.h'), os.path.join(RT_DIR, 'vf_tr_impl.h')], ' '.join(cmd[3:]))
-    out['formula_key'] = key[:16]
+    # the formula is identified by the bytes cbmc will read: copy the generated C to a content-addressed, immutable file first
+    # (another process working in the same directory must not be able to change it between hashing and solving)
+    data = open(c, 'rb').read()
+    h = hashlib.sha256(data)
+    for pth in (RT_C, os.path.join(RT_DIR, 'vf_rt.h'), os.path.join(RT_DIR, 'vf_tr_impl.h')): h.update(open(pth, 'rb').read())
+    h.update(' '.join(cbmc_cmd(j, 'X')[3:]).encode())
+    key = h.hexdigest()
+    fc = os.path.join(wd, 'f_%s.c' % key[:20])
+    if not os.path.exists(fc):
+        import uuid
+        tmpc = fc + '.' + uuid.uuid4().hex; open(tmpc, 'wb').write(data); os.replace(tmpc, fc)
+    cmd = cbmc_cmd(j, fc)
     cpath = os.path.join(CACHE, key + '.json')
     parsed = None
     if use_cache and os.path.exists(cpath):
